@@ -44,8 +44,28 @@ def r02a(ctx, trimmed_lists):
             why = None
             if a == b:
                 why = "the same object on both sides"
+            def idiom(t):
+                """reason if the (positive) test t establishes that a equals b, else None"""
+                w = None
+                for l, r in _eq_operands(t):
+                    if {l, r} == {a, b}:
+                        w = f"guarded by `{norm(t, 60)}`"
+                    elif {l, r} in ({a + "._children", b + "._children"}, {a + ".object", b + ".object"},
+                                    {f"frozenset({a})", f"frozenset({b})"}):
+                        w = f"guarded by `{norm(t, 60)}` (container/object equality of the two operands)"
+                txt_ = ast.unparse(t).replace(" ", "")
+                if txt_ in (f"len({a}._children)==len({b}._children)==0", f"len({a}._children)==len({b})==0",
+                            f"len({a})==len({b})==0"):
+                    w = "both operands are empty"
+                return w
             for t, pol in facts:
                 if not pol or why:
+                    continue
+                if isinstance(t, ast.BoolOp) and isinstance(t.op, ast.Or):
+                    # a disjunction establishes equality if each alternative does
+                    ws = [idiom(v) for v in t.values]
+                    if all(ws):
+                        why = "guarded by a disjunction whose every alternative establishes equality: " + "; ".join(ws)
                     continue
                 for l, r in _eq_operands(t):
                     if {l, r} == {a, b}:
